@@ -100,10 +100,17 @@ func main() {
 		fail("usage: verif check <Cnn> [--tier quick|thorough] | replay <file> | build [--race]")
 	}
 	switch os.Args[1] {
+	case "mutant-check":
+		// internal: check <prop> with the patch given in the environment
+		patchOverride = map[string][]byte{os.Getenv("VERIF_MUTANT_FILE"): []byte(os.Getenv("VERIF_MUTANT_NEW"))}
+		mutantRun = true
+		os.Exit(cmdCheck([]string{os.Args[2]}))
 	case "check":
 		os.Exit(cmdCheck(os.Args[2:]))
 	case "replay":
 		os.Exit(cmdReplay(os.Args[2:]))
+	case "mutants":
+		os.Exit(cmdMutants(os.Args[2:]))
 	case "build":
 		race := len(os.Args) > 2 && os.Args[2] == "--race"
 		br, err := build(race, "warm", nil)
@@ -158,6 +165,14 @@ func workerEnv(race bool, work string, shard int) []string {
 	return env
 }
 
+// patchOverride, when set, is applied through the overlay by every build (mutant self-test).
+var patchOverride map[string][]byte
+var quietCheck bool
+
+// mutantRun: evidence and replay artefacts of a mutant run go to the work directory, not to
+// /verif/evidence.
+var mutantRun bool
+
 func cmdCheck(args []string) int {
 	if len(args) < 1 {
 		fail("usage: verif check <Cnn> [--tier quick|thorough]")
@@ -185,8 +200,12 @@ func cmdCheck(args []string) int {
 	seed, _ := strconv.ParseInt(os.Getenv("VERIF_SEED"), 10, 64)
 	start := time.Now()
 	race := raceChecks[id]
-	br, err := build(race, id, nil)
+	br, err := build(race, id, patchOverride)
 	if err != nil {
+		if patchOverride != nil {
+			fmt.Println("BUILD-FAILED:", oneLine(err.Error(), 400))
+			return 3
+		}
 		fail("%v", err)
 	}
 	defer os.RemoveAll(br.work)
@@ -294,6 +313,9 @@ func cmdCheck(args []string) int {
 		b, _ := json.MarshalIndent(v.Replay, "", " ")
 		sum := sha256.Sum256(b)
 		path := filepath.Join(verifDir, "replays", fmt.Sprintf("%s-%x.json", id, sum[:6]))
+		if mutantRun {
+			path = filepath.Join(br.work, fmt.Sprintf("%s-%x.json", id, sum[:6]))
+		}
 		os.WriteFile(path, b, 0o644)
 		fmt.Printf("VIOLATION property=%s replay=%s\n", id, path)
 		fmt.Printf("  what: %s\n", oneLine(v.What, 600))
@@ -342,9 +364,11 @@ func cmdCheck(args []string) int {
 		ev["coverage"].(map[string]interface{})["samples"] = []interface{}{}
 	}
 	b, _ := json.MarshalIndent(ev, "", " ")
-	os.MkdirAll(filepath.Join(verifDir, "evidence"), 0o755)
-	if err := os.WriteFile(filepath.Join(verifDir, "evidence", id+".json"), b, 0o644); err != nil {
-		fail("%v", err)
+	if !mutantRun {
+		os.MkdirAll(filepath.Join(verifDir, "evidence"), 0o755)
+		if err := os.WriteFile(filepath.Join(verifDir, "evidence", id+".json"), b, 0o644); err != nil {
+			fail("%v", err)
+		}
 	}
 	fmt.Printf("%s %s: states=%d transitions=%d executions=%d distinct_nontrivial=%d outcomes=%d exhaustive=%v violations=%d findings=%d wall=%.1fs (build %.1fs)\n",
 		id, tier, m.States, m.Transitions, m.Evaluations, m.DistinctNontrivial, m.DistinctOutcomes, m.Exhaustive && !harnessBad, nviol, len(fids), wall, buildS)
@@ -393,4 +417,108 @@ func oneLine(s string, n int) string {
 		s = s[:n] + "..."
 	}
 	return s
+}
+
+type mutant struct {
+	id, prop, file string
+	old, new       string
+}
+
+func loadMutants(path string) ([]mutant, error) {
+	b, err := os.ReadFile(path)
+	if err != nil {
+		return nil, err
+	}
+	var out []mutant
+	var cur *mutant
+	mode := 0
+	for _, line := range strings.Split(string(b), "\n") {
+		switch {
+		case strings.HasPrefix(line, "=== ") && !strings.HasPrefix(line, "=== <"):
+			f := strings.Fields(line[4:])
+			if len(f) < 3 {
+				continue
+			}
+			out = append(out, mutant{id: f[0], prop: f[1], file: f[2]})
+			cur = &out[len(out)-1]
+			mode = 0
+		case line == "---" && cur != nil:
+			mode = 1
+		case line == "+++" && cur != nil:
+			mode = 2
+		default:
+			if cur == nil {
+				continue
+			}
+			if mode == 1 {
+				cur.old += line + "\n"
+			} else if mode == 2 {
+				cur.new += line + "\n"
+			}
+		}
+	}
+	for i := range out {
+		out[i].old = strings.TrimSuffix(out[i].old, "\n")
+		out[i].new = strings.TrimSuffix(out[i].new, "\n")
+	}
+	return out, nil
+}
+
+// cmdMutants applies catalogue edits one at a time THROUGH THE OVERLAY (never to /repo) and
+// runs the owning check: `verif mutants [id|Cnn ...]`.
+func cmdMutants(args []string) int {
+	ms, err := loadMutants(filepath.Join(verifDir, "mutants", "catalogue.txt"))
+	if err != nil {
+		fail("%v", err)
+	}
+	want := map[string]bool{}
+	for _, a := range args {
+		want[a] = true
+	}
+	missed := 0
+	for _, m := range ms {
+		if len(want) > 0 && !want[m.id] && !want[m.prop] {
+			continue
+		}
+		props := strings.Split(m.prop, "/")
+		src, err := os.ReadFile(filepath.Join(repoDir, m.file))
+		if err != nil {
+			fmt.Printf("%s %s: cannot read %s\n", m.id, m.prop, m.file)
+			continue
+		}
+		if strings.Count(string(src), m.old) != 1 {
+			fmt.Printf("%s %s: SKIP (old text occurs %d times in %s on the current tree)\n", m.id, m.prop, strings.Count(string(src), m.old), m.file)
+			continue
+		}
+		patchOverride = map[string][]byte{m.file: []byte(strings.Replace(string(src), m.old, m.new, 1))}
+		for _, prop := range props {
+			// run the check in a child process so that its output can be summarised
+			cmd := exec.Command(os.Args[0], "mutant-check", prop, m.id)
+			cmd.Env = append(os.Environ(), "VERIF_MUTANT_FILE="+m.file, "VERIF_MUTANT_NEW="+string(patchOverride[m.file]))
+			out, _ := cmd.CombinedOutput()
+			code := cmd.ProcessState.ExitCode()
+			verdict := "MISSED"
+			if code == 1 {
+				verdict = "caught"
+			} else if code != 0 {
+				verdict = fmt.Sprintf("exit %d", code)
+			}
+			if verdict != "caught" {
+				missed++
+			}
+			first := ""
+			for _, l := range strings.Split(string(out), "\n") {
+				if strings.HasPrefix(l, "  what:") {
+					first = l
+					break
+				}
+			}
+			fmt.Printf("%s %s: %s %s\n", m.id, prop, verdict, oneLine(first, 300))
+		}
+	}
+	patchOverride = nil
+	if missed > 0 {
+		return 1
+	}
+	return 0
 }
